@@ -4,7 +4,9 @@ package server
 
 import (
 	"fmt"
+	"math"
 	"math/rand"
+	"strings"
 	"time"
 
 	"github.com/anishathalye/porcupine"
@@ -69,10 +71,15 @@ func runC07(w *World) {
 	}
 	// live fences evaluate under the shared lock while writers run
 	nl := w.knob("lives", 3)
+	type liveFence struct {
+		a   *Actor
+		key string
+	}
+	var lives []liveFence
 	for i := 0; i < nl; i++ {
 		key := []string{"k1", "k2"}[i%2]
 		prog := []Cmd{{Args: []string{"NEARBY", key, "FENCE", "POINT", "10", "10", "20000000"}, GoLive: true}}
-		w.addActor(n, simAddr(fmt.Sprintf("127.0.0.1:%d", 51001+i)), prog)
+		lives = append(lives, liveFence{w.addActor(n, simAddr(fmt.Sprintf("127.0.0.1:%d", 51001+i)), prog), key})
 	}
 	allDone := func() bool {
 		for _, a := range clients {
@@ -91,6 +98,55 @@ func runC07(w *World) {
 		w.harnessErr("clients did not finish")
 	}
 	hc.finish(nil)
+	// a live fence connection is a client too: the 'set' notifications it received are, in the
+	// order received, a subsequence of the SETs of its collection in the log - each log entry
+	// reported at most once, none out of order
+	if !w.failed() {
+		hc.lm.poll()
+		for li, lf := range lives {
+			p := 0
+			nset := 0
+			reported := map[int]int{} // log entry -> notifications matched to it (one write yields at most two: enter+inside, exit+outside, cross+outside)
+			for _, it := range lf.a.stream {
+				body := it.V.S
+				if it.V.T != '$' && it.V.T != '+' || !strings.HasPrefix(body, "{") {
+					continue
+				}
+				m, _, err := parseFenceMsg(body)
+				if err != nil || m.command != "set" {
+					continue
+				}
+				nset++
+				found := -1
+				for k := p; k < len(hc.lm.entries); k++ {
+					e := &hc.lm.entries[k]
+					// (JSET / JDEL on a geometry re-store the object and are reported as 'set' too)
+					if c := lower(e.args[0]); (c != "set" && c != "jset" && c != "jdel") || len(e.args) < 3 || e.args[1] != lf.key || e.args[2] != m.id || !e.res.changed {
+						continue
+					}
+					if lat, lon, ok := pointOf(hc.lm.states[k+1].get(lf.key, m.id)); ok && (math.Abs(lat-m.lat) > 1e-9 || math.Abs(lon-m.lon) > 1e-9) {
+						continue
+					}
+					if reported[k] >= 2 {
+						continue
+					}
+					found = k
+					break
+				}
+				if found < 0 {
+					w.violate("C07/live-order", "live fence %d on %s: its notification #%d (set %s at %v,%v) does not follow the log order: no SET of that object at or after log entry %d (a notification repeated, reordered or never logged)",
+						li, lf.key, nset, m.id, m.lat, m.lon, p)
+					break
+				}
+				reported[found]++
+				p = found
+			}
+			w.stat("c07.live_fence_sets_ordered", nset)
+			if w.failed() {
+				break
+			}
+		}
+	}
 	// overlapping windows make a run non-trivial
 	var ops []*Op
 	for _, a := range clients {
